@@ -341,30 +341,46 @@ func (w *World) ForceUnique(info FnInfo, data any) {
 // filters: selectors and elements types harvested from the FilterType struct tags
 
 type filterInfo struct {
-	SelType reflect.Type // struct type of the selectors (nil if none)
-	ElType  reflect.Type // struct type of the elements (nil if none)
+	SelType           reflect.Type // struct type of the selectors (nil if none)
+	ElType            reflect.Type // struct type of the elements (nil if none)
+	SelField, ElField string       // Go names of the members of model.FilterType
 }
 
 var filterTable = map[model.FunctionType]filterInfo{}
+
+// The selectors / elements members of a filter are found by the names of the protocol (JSON),
+// not by the implementation's own struct tag table (which the code under test reads, and which
+// has slips): "<function>Selectors" and "<list item>Elements".
+var filterFieldByJSON = map[string]reflect.StructField{}
 
 func init() {
 	ft := reflect.TypeOf(model.FilterType{})
 	for i := 0; i < ft.NumField(); i++ {
 		sf := ft.Field(i)
-		tags := model.EEBusTags(sf)
-		fn, ok := tags[model.EEBusTagFunction]
-		if !ok || sf.Type.Kind() != reflect.Ptr {
-			continue
+		if sf.Type.Kind() == reflect.Ptr {
+			filterFieldByJSON[jsonName(sf)] = sf
 		}
-		fi := filterTable[model.FunctionType(fn)]
-		switch tags[model.EEBusTagType] {
-		case string(model.EEBusTagTypeTypeSelector):
-			fi.SelType = sf.Type.Elem()
-		case string(model.EEbusTagTypeTypeElements):
-			fi.ElType = sf.Type.Elem()
-		}
-		filterTable[model.FunctionType(fn)] = fi
 	}
+}
+
+// filterInfoFor is computed on first use (the function tables are filled by another init).
+//
+//go:norace
+func filterInfoFor(info FnInfo) filterInfo {
+	if fi, ok := filterTable[info.Fn]; ok {
+		return fi
+	}
+	var fi filterInfo
+	if sf, ok := filterFieldByJSON[string(info.Fn)+"Selectors"]; ok {
+		fi.SelType, fi.SelField = sf.Type.Elem(), sf.Name
+	}
+	if info.DataType != nil && info.ListFld >= 0 && info.ListFld < info.DataType.NumField() {
+		if sf, ok := filterFieldByJSON[jsonName(info.DataType.Field(info.ListFld))+"Elements"]; ok {
+			fi.ElType, fi.ElField = sf.Type.Elem(), sf.Name
+		}
+	}
+	filterTable[info.Fn] = fi
+	return fi
 }
 
 // GenSelector builds a selector (pointer to the selectors struct) naming the full identifier
@@ -372,7 +388,7 @@ func init() {
 //
 //go:norace
 func GenSelector(info FnInfo, ids []uint) any {
-	fi := filterTable[info.Fn]
+	fi := filterInfoFor(info)
 	if fi.SelType == nil || info.ItemType == nil {
 		return nil
 	}
@@ -408,7 +424,7 @@ func GenSelector(info FnInfo, ids []uint) any {
 //
 //go:norace
 func (w *World) GenSelectorWide(info FnInfo, ids []uint) any {
-	fi := filterTable[info.Fn]
+	fi := filterInfoFor(info)
 	if fi.SelType == nil || info.ItemType == nil {
 		return nil
 	}
@@ -435,7 +451,7 @@ func (w *World) GenSelectorWide(info FnInfo, ids []uint) any {
 //
 //go:norace
 func SelectorCoversKeys(info FnInfo) bool {
-	fi := filterTable[info.Fn]
+	fi := filterInfoFor(info)
 	if fi.SelType == nil || info.ItemType == nil {
 		return false
 	}
@@ -460,7 +476,7 @@ func SelectorCoversKeys(info FnInfo) bool {
 //
 //go:norace
 func GenElements(info FnInfo, fields []string) any {
-	fi := filterTable[info.Fn]
+	fi := filterInfoFor(info)
 	if fi.ElType == nil {
 		return nil
 	}
@@ -485,11 +501,12 @@ func MakeFilter(info FnInfo, kind string, selector, elements any) *model.FilterT
 	} else {
 		f.CmdControl.Delete = &model.ElementTagType{}
 	}
-	if selector != nil {
-		f.SetDataForFunction(model.EEBusTagTypeTypeSelector, info.Fn, selector)
+	fi := filterInfoFor(info)
+	if selector != nil && fi.SelField != "" {
+		reflect.ValueOf(f).Elem().FieldByName(fi.SelField).Set(reflect.ValueOf(selector))
 	}
-	if elements != nil {
-		f.SetDataForFunction(model.EEbusTagTypeTypeElements, info.Fn, elements)
+	if elements != nil && fi.ElField != "" {
+		reflect.ValueOf(f).Elem().FieldByName(fi.ElField).Set(reflect.ValueOf(elements))
 	}
 	return f
 }
